@@ -122,13 +122,8 @@ def r2_4(ctx):
     gw = ctx.repo.method(WORKER, "get_work_amount_skill_progress")
     gf = ctx.repo.method(FACILITY, "get_work_amount_skill_progress")
 
-    def norm(g, enum):
-        body = [s for s in g.body()]
-        txt = "\n".join(ast.unparse(s) for s in body)
-        return txt.replace(enum, "<STATE>")
+    # (the two siblings are held to the same table and the same provenance below; their texts need not be equal)
     ctx.instance("sibling:get_work_amount_skill_progress")
-    if norm(gw, WS) != norm(gf, FS_):
-        ctx.violation("sibling:get_work_amount_skill_progress", gf.loc(), "BaseWorker and BaseFacility.get_work_amount_skill_progress differ beyond the state enum class: the two resource kinds contribute by different rules")
     for cls, enum, g in ((WORKER, WS, gw), (FACILITY, FS_, gf)):
         for skilled in (True, False):
             for s in ctx.repo.enums[enum]:
@@ -145,18 +140,44 @@ def r2_4(ctx):
                         ctx.violation(construct(g, "contributes-without-skill-or-absent"), g.loc(), f"{cls}: skilled={skilled}, state {s} => contributes `{ret!r}` (must be 0)")
                     if skilled and s != "ABSENCE" and zero:
                         ctx.violation(construct(g, "skilled-present-contributes-nothing"), g.loc(), f"{cls}: a skilled resource in state {s} contributes nothing")
-        # value provenance: normal(mean, sd) with mean = mean_map[task_name]
-        rets = [n for n in ast.walk(g.node) if isinstance(n, ast.Return) and not isinstance(n.value, ast.Constant)]
-        ctx.require(len(rets) == 1, f"{cls}.get_work_amount_skill_progress: expected one non-constant return")
-        from .C08 import feeding_reads
-        reads = feeding_reads(g, [rets[0].value])
-        ok = "workamount_skill_mean_map" in reads and reads <= {"workamount_skill_mean_map", "workamount_skill_sd_map", "assigned_task_list", "state"}
-        ctx.instance(construct(g, "value-provenance"), sample={"reads": sorted(reads)})
+        # value provenance: the draw's mean is the skill-map entry of *this task*, and nothing but the skill maps, the assignment
+        # list and the state feeds the value (the method and the private helpers of its class it is split into)
+        draws = []
+
+        def hook(I, call, st, fr):
+            fn = ast.unparse(call.func)
+            if fn.endswith("random.normal") or fn.endswith(".normal"):
+                draws.append([I.eval(a, st, fr) for a in call.args])
+                return Poly.sym("draw")
+            return None
+        from ..interp import State
+        st0 = State()
+        st0.facts["<self>.has_workamount_skill('a')"] = (True, frozenset())
+        I = mk_interp(ctx, call_hook=hook)
+        pouts = I.run_function(g, bind={"task_name": Const("a"), "seed": Const(None)}, heap={("self", "state"): E(enum, "WORKING")}, st=st0)
+        ctx.instance(construct(g, "value-provenance"), sample={"draws": [[repr(x)[:60] for x in d] for d in draws][:2]})
+        # a resource that works on several tasks at once splits its progress: the returned value is the draw divided by a count
+        for st1, ex1 in pouts:
+            rv = ex1[1] if ex1 and ex1[0] == "return" else None
+            txt = repr(rv)
+            if not (isinstance(rv, Poly) and re.fullmatch(r"\(draw\)/\((.+)\)", txt) and not re.fullmatch(r"\(draw\)/\([\d./]+\)", txt)):
+                ctx.violation(construct(g, "not-shared-among-tasks"), g.loc(), f"{cls}: a skilled, working resource contributes `{txt[:60]}`: the drawn progress is not divided by the number of tasks "
+                              "the resource is working on at this step")
+        if not draws:
+            raise AnalysisError(f"R2.4: no random draw found in {g.qualname} for a skilled, working resource (unrecognised formulation)")
+        for d in draws:
+            mean = repr(d[0]) if d else ""
+            if "workamount_skill_mean_map" not in mean or not ("'a'" in mean or "task_name" in mean):
+                ctx.violation(construct(g, "mean-lookup"), g.loc(), f"{cls}: the mean of the progress draw is `{mean[:70]}`, not the skill-map entry of the task's name")
+        region = [g] + [h for h in ctx.eff.reachable([g], precise=True) if h.cls == cls and h.name.startswith("_") and not h.name.endswith("__")]
+        reads = set()
+        for h in region:
+            for e in ctx.eff.of(h):
+                if e.kind == "read" and ctx.types.field_type(cls, e.attr) is not None:
+                    reads.add(e.attr)
+        ok = "workamount_skill_mean_map" in reads and "assigned_task_list" in reads and reads <= {"workamount_skill_mean_map", "workamount_skill_sd_map", "assigned_task_list", "state"}
         if not ok:
-            ctx.violation(construct(g, "value-provenance"), g.loc(rets[0]), f"{cls}: the contribution is computed from {sorted(reads)} (expected the work-amount skill maps)")
-        src = ast.unparse(g.node)
-        if not re.search(r"skill_mean\s*=\s*self\.workamount_skill_mean_map\[task_name\]", src) and "workamount_skill_mean_map[task_name]" not in src:
-            ctx.violation(construct(g, "mean-lookup"), g.loc(), f"{cls}: the skill mean is not looked up under the task's name")
+            ctx.violation(construct(g, "value-provenance"), g.loc(), f"{cls}: the contribution is computed from {sorted(reads)} (expected the work-amount skill maps)")
     ctx.end()
 
 
